@@ -350,6 +350,11 @@ type Event struct {
 	Flush int      `json:"flush,omitempty"`
 	Pool  *PoolEv  `json:"pool,omitempty"`
 	Msg   string   `json:"msg,omitempty"`
+	Code  int      `json:"code,omitempty"`
+	CT    string   `json:"ct,omitempty"`
+	Opt   string   `json:"opt,omitempty"`
+	T0    int64    `json:"t0,omitempty"`
+	T1    int64    `json:"t1,omitempty"`
 	Side  *Out     `json:"side,omitempty"`
 	Sinks []*Out   `json:"sinks,omitempty"`
 }
